@@ -62,3 +62,39 @@ Theorem C17_code_tie : forall c path query,
   PyGen.gen_upstream_url (rstrip_slash (px_upstream c)) (px_prefix c) (px_strip c) path query = upstream_url c path query.
 Proof. exact Equiv.upstream_url_tie. Qed.
 Print Assumptions C17_code_tie.
+
+(* ---- tie to the code (server/router.py, server/proxy.py): the statements of coq/Equiv/EquivMw.v, re-checked here against the definitions regenerated
+   from /repo's working tree (coq/Gen); see DESIGN.md 11.8 ---- *)
+From Coq Require Import List NArith ZArith QArith Bool.
+From NV Require Import Prelude.Str Prelude.Res Model.Bucket Model.Ip Model.Proxy Model.ServerProto Model.Session Equiv.ServerGlue Equiv.MwGlue.
+From NV Require Import Gen.MwGen.
+From NV Require Equiv.EquivMw.
+Theorem C17_code_router_route_tie : forall REQ RX req_path rxm (routes : list (Proxy.route (REQ -> resp))) dflt request,
+  gen_router_route REQ RX req_path rxm (map EquivMw.py_route_of routes) dflt request =
+  match Proxy.route_to routes (req_path request) with
+  | Some h => h request
+  | None => EquivMw.or_default dflt request
+  end.
+Proof. exact EquivMw.router_route_tie. Qed.
+Print Assumptions C17_code_router_route_tie.
+
+Theorem C17_code_router_route_first_match : forall REQ RX req_path rxm (routes : list (py_Route REQ RX)) dflt request,
+  gen_router_route REQ RX req_path rxm routes dflt request =
+  match find (EquivMw.py_matches rxm (req_path request)) routes with
+  | Some r => Route_handler r request
+  | None => EquivMw.or_default dflt request
+  end.
+Proof. exact EquivMw.router_route_first_match. Qed.
+Print Assumptions C17_code_router_route_first_match.
+
+Theorem C17_code_router_add_model_route : forall REQ RX rc (routes : list (Proxy.route (REQ -> resp))) (r : Proxy.route (REQ -> resp)),
+  gen_router_add_route REQ RX rc (map EquivMw.py_route_of routes) (rt_pattern r) (rt_handler r)
+                       (match rt_type r with RExact => RouteType_EXACT | RPrefix => RouteType_PREFIX end) =
+  Ok (map EquivMw.py_route_of (routes ++ [r])).
+Proof. exact EquivMw.router_add_model_route. Qed.
+Print Assumptions C17_code_router_add_model_route.
+
+Theorem C17_code_proxy_relay_tie : forall (get : str -> callres resp) url, gen_proxy_relay get url = EquivMw.relay_spec (get url).
+Proof. exact EquivMw.proxy_relay_tie. Qed.
+Print Assumptions C17_code_proxy_relay_tie.
+
